@@ -143,7 +143,19 @@ class StreamingEnsemble(StreamingDetector, Ensemble):
             y_true (numpy.ndarray): if applicable, true labels of input data
             y_pred (numpy.ndarray): if applicable, predicted labels of input data
         """
-        Ensemble.update(self, X=X, y_true=y_true, y_pred=y_pred)
+        # Validate before any member sees the sample: members are updated one
+        # after the other, so a call that only a later member refuses (two rows
+        # in X while the first member reads y, several labels while the first
+        # member reads X) would already have been processed by the members in
+        # front of it.
+        established = (self._input_cols, self._input_col_dim)
+        self._validate_input(X, y_true, y_pred)
+        try:
+            Ensemble.update(self, X=X, y_true=y_true, y_pred=y_pred)
+        except ValueError:
+            # input refused by a member establishes nothing for the ensemble
+            self._input_cols, self._input_col_dim = established
+            raise
         StreamingDetector.update(self, X=X, y_true=y_true, y_pred=y_pred)
 
     def reset(self):
